@@ -52,6 +52,7 @@ type Parser struct {
 	loadOnce  bool
 	skipValue bool
 	dbuf      *byte
+	depth     int // nesting depth of the eager (noLazy) recursive descent, bounded by types.MAX_RECURSE
 }
 
 /** Parser Private Methods **/
@@ -127,6 +128,13 @@ func (self *Parser) backward() {
 }
 
 func (self *Parser) decodeArray(ret *linkedNodes) (Node, types.ParsingError) {
+	/* decodeArray -> Parse -> decodeArray recurses on the goroutine stack: bound it like the native scanners */
+	if self.depth >= types.MAX_RECURSE {
+		return Node{}, types.ERR_RECURSE_EXCEED_MAX
+	}
+	self.depth++
+	defer func() { self.depth-- }()
+
 	sp := self.p
 	ns := len(self.s)
 
@@ -193,6 +201,13 @@ func (self *Parser) decodeArray(ret *linkedNodes) (Node, types.ParsingError) {
 }
 
 func (self *Parser) decodeObject(ret *linkedPairs) (Node, types.ParsingError) {
+	/* decodeObject -> Parse -> decodeObject recurses on the goroutine stack: bound it like the native scanners */
+	if self.depth >= types.MAX_RECURSE {
+		return Node{}, types.ERR_RECURSE_EXCEED_MAX
+	}
+	self.depth++
+	defer func() { self.depth-- }()
+
 	sp := self.p
 	ns := len(self.s)
 
